@@ -148,6 +148,11 @@ def run_history_check(prop, tier, mode, runs, cat, budget_s, design_ref, assumpt
     agg["symmetric_failures"] = len(sym_items)
     if c07:
         for u, rec, d in sym_items:
+            if d["class"].startswith("exit:"):
+                # the child was killed but left no parsable report (seen twice in 74 000 histories on a loaded
+                # machine, never on re-execution): counted, not a candidate -- there is no call site to name
+                agg["other"]["isolated reference call died without a parsable report [%s]" % d["dict_kind"]] += 1
+                continue
             candidates.setdefault("%s|%s|sym" % (d["class"], d["dict_kind"]), []).append((u, rec, d))
     for u in range(nuni):
         for run, rec in sorted(hr.recs[u].items()):
